@@ -138,7 +138,14 @@ class Shape(object):
             else:
                 root = root.func
         if isinstance(root, ast.Name):
-            if root.id in self.f.params:
+            g = self.f
+            is_param = False
+            while g is not None:
+                if root.id in g.params:
+                    is_param = True
+                    break
+                g = g.parent
+            if is_param:
                 return 'param:%s' % '.'.join([root.id] + attrs[::-1][:2])
             if root.id in self.loop_vars:
                 return 'loopvar'
